@@ -110,6 +110,11 @@ def cases(tier, seed):
                 "settings": sd,
                 "seed": rnd.randrange(10**6),
             }
+            r3 = rnd.random()
+            if r3 < 0.12:
+                c["default_dtype"] = "float32"
+            elif r3 < 0.3:
+                c["grad_mode"] = rnd.choice(["no_grad", "inference"])
             if n == 1 or (n == 2 and ns == 5):
                 c["hostile"] = True
             i += 1
@@ -345,6 +350,23 @@ def build(case):
 
 
 def run_case(case, ctx):
+    import contextlib
+
+    import torch
+
+    # environment of the call: the process-wide default dtype (objects are float64 whatever it is) and the autograd mode
+    dflt = case.get("default_dtype")
+    gm = {"no_grad": torch.no_grad, "inference": torch.inference_mode}.get(case.get("grad_mode"), contextlib.nullcontext)
+    if dflt == "float32":
+        torch.set_default_dtype(torch.float32)
+    try:
+        with gm():
+            return _run_case(case, ctx)
+    finally:
+        torch.set_default_dtype(torch.float64)
+
+
+def _run_case(case, ctx):
     import torch
 
     import gpytorch
@@ -352,6 +374,9 @@ def run_case(case, ctx):
     from vf import util
 
     model, lik, X, y, xs, test_noise = build(case)
+    if case.get("default_dtype") == "float32":
+        model = model.double()  # constructed while float32 was the default (constraint bounds, buffers), then converted
+        lik = model.likelihood
     model.eval()
     lik.eval()
     n, ns = case["n"], case["ns"]
